@@ -259,7 +259,7 @@ func vGenNamePool(t *rapid.T, wild bool, k int, label string) []string {
 		if len(out) > 0 && rapid.IntRange(0, 9).Draw(t, fmt.Sprintf("%s%d.affix", label, i)) == 0 {
 			// an earlier name as a proper suffix or prefix of this one ("sauce" / "pasta with sauce")
 			src := out[rapid.IntRange(0, len(out)-1).Draw(t, fmt.Sprintf("%s%d.affixsrc", label, i))]
-			sep := []string{" ", "/", " with ", "-"}[rapid.IntRange(0, 3).Draw(t, fmt.Sprintf("%s%d.affixsep", label, i))]
+			sep := []string{" ", "/", " with ", "-", " x/", "-x/", ".y/", "/a/", ",z/"}[rapid.IntRange(0, 8).Draw(t, fmt.Sprintf("%s%d.affixsep", label, i))]
 			short := string(vEdgeASCII[rapid.IntRange(0, 25).Draw(t, fmt.Sprintf("%s%d.affixch", label, i))])
 			if rapid.Bool().Draw(t, fmt.Sprintf("%s%d.affixside", label, i)) {
 				nm = short + sep + src
@@ -387,7 +387,8 @@ func vGenCoefExact(t *rapid.T, label string) string {
 }
 
 var vDecimalPool = []string{"259", "3.3", "0.40", "1.20", "-124", "0.001", "48", "9", "1.1", "0.9", "680", "7.5", "0.1", "0.2", "0.3", "1.5", "2.675", "-0.7", "-1.05", "100", "0.07", "33.333", "1e2", "2.5e-1", "0", "1", "2", "-1", "0.5",
-	"0.005", "0.015", "0.125", "0.4", "-0.4", "12345678.5", "-1234567.25", "0.104", "0.108"}
+	"0.005", "0.015", "0.125", "0.4", "-0.4", "12345678.5", "-1234567.25", "0.104", "0.108",
+	"9999999.995", "9999999.999", "-999999.995", "-999999.999", "999.995", "9.995", "0.995", "99999.999"}
 
 func vGenNumDecimal(t *rapid.T, label string) string {
 	if rapid.IntRange(0, 3).Draw(t, label+".p") == 0 {
